@@ -2,16 +2,16 @@
  * engine, whatever the engine holds (root NULL or not, any stacks, any extensions): mmd_engine_reset -- whose own contract (all ten
  * stacks emptied, root cleared; unit engine_reset) is what makes a parse independent of earlier ones -- is called exactly once, before
  * the tokenizer, the block parser and the pairing passes (all of them contract stubs here); and the engine's extensions are
- * the same after the call as before. */
+ * the same after the call as before.  (C15) the range given to the tokenizer is the requested one, inside the text. */
 #include "verif.h"
 #include "d_string.h"
 #include "token.h"
 #include "mmd.h"
-static unsigned g_resets, g_tok; static mmd_engine * g_e;
+static unsigned g_resets, g_tok; static mmd_engine * g_e; static size_t g_ts, g_tl; static unsigned long g_text;
 void mmd_engine_reset(mmd_engine * e) { ASSERT(e == g_e, "the engine being parsed is the one reset"); g_resets++; }
 token * mmd_tokenize_string(mmd_engine * e, size_t start, size_t len, bool stop_on_empty_line) {
 	ASSERT(g_resets == 1, "C05: the tokenizer runs on an engine that has just been reset (every parse starts from a clean engine, whatever it held before)");
-	g_tok++;
+	g_tok++; g_ts = start; g_tl = len; g_text = e->extensions;
 	bool none; return none ? NULL : (token *)ALLOC(sizeof(token));
 }
 void mmd_parse_token_chain(mmd_engine * e, token * chain) { ASSERT(g_resets == 1 && g_tok == 1, "block parsing follows reset and tokenizing"); }
@@ -22,9 +22,19 @@ void h_parse_resets(void) {
 	{ IN(unsigned long, ext); e->extensions = ext; IN(token *, root); e->root = root; }       /* any previous state, including 'no tree but non-empty stacks' */
 	unsigned long ext0 = e->extensions;
 	IN(size_t, start); IN(size_t, len);
+	ASSUME(start <= 7 && (len == (size_t) -1 || len <= 7 - start));        /* the caller's side: a range inside the text, or 'to the end' */
 	g_resets = 0; g_tok = 0;
 	token * doc = mmd_engine_parse_substring(e, start, len);
 	ASSERT(g_resets == 1 && g_tok == 1, "C05: exactly one reset and one tokenizer run per parse");
 	ASSERT(e->extensions == ext0, "the engine's extensions are restored");
+	/* (C15) the range handed to the tokenizer -- every token it makes lies in that range -- is the requested one, inside the text */
+	if (ext0 & (EXT_PARSE_OPML | EXT_PARSE_ITMZ)) {
+		ASSERT(g_ts == 0 && g_tl == d->currentStringLength, "C15: after an outline import the whole (converted) text is tokenized");
+	} else {
+		ASSERT(g_ts == start, "C15: tokenizing starts at the requested offset");
+		ASSERT(g_tl == (len == (size_t) -1 ? 7 - start : len), "C15: the tokenized range is the requested one; -1 means 'from byte_start to the end of the text' (never past it)");
+		ASSERT(g_ts + g_tl <= d->currentStringLength, "C15: the tokenized range lies inside the text");
+	}
+	ASSERT(start == 0 || (g_text & EXT_NO_METADATA), "C11: a parse that does not start at the beginning of the text does not look for metadata");
 	REACH();
 }
